@@ -72,7 +72,8 @@ impl<'a> PathMut<'a> {
 	#[inline]
 	pub fn symbolic_push(&mut self, segment: &Segment) {
 		if self.0.symbolic_push(segment) && !self.0.is_empty() {
-			self.0.push(Segment::EMPTY)
+			self.0
+				.push(verif_static!(Segment::EMPTY, Segment::new_unchecked(b"")))
 		}
 	}
 
